@@ -173,6 +173,237 @@ def load(spec):
     return db
 
 
+# --------------------------------------------------------------------------- the space of legal short names
+# An ODX SHORT-NAME is any [a-zA-Z0-9_]{1,128} (ISO 22901-1 7.1.1).  The comparison / listing tools identify layers, services,
+# parameters, DOPs and units by their short name, so the *class* of a name must not matter.  The classes below partition what
+# can make a name special for Python code that looks objects up by name (NamedItemList attribute keys, dictionaries, sorting,
+# string formatting): none is special for the property.
+_STEMS = ("Read", "ctl", "Data_Id", "x", "Routine", "tp", "Sess", "io", "Write", "dtc", "mem", "Sec", "echo", "flip", "Reset", "q")
+_HARD_KW = ("False", "None", "True", "and", "as", "assert", "async", "await", "break", "class", "continue", "def", "del", "elif", "else",
+            "except", "finally", "for", "from", "global", "if", "import", "in", "is", "lambda", "nonlocal", "not", "or", "pass", "raise",
+            "return", "try", "while", "with", "yield")
+_SOFT_KW = ("_", "case", "match", "type", "print", "list", "dict", "id", "len", "str", "int", "self", "cls", "object", "property", "exec",
+            "set", "min", "max", "all", "any", "next", "iter", "hash")
+_CONTAINER_ATTRS = ("append", "clear", "copy", "count", "extend", "get", "index", "insert", "items", "keys", "pop", "remove", "reverse",
+                    "sort", "values", "_item_dict", "_get_item_key", "_add_attribute_item", "__len__", "__class__", "__dict__", "__eq__",
+                    "__init__", "__getattr__", "__iter__", "__doc__")
+NAME_CLASSES = ("plain", "digit-first", "all-digits", "keyword", "soft-keyword-or-builtin", "container-attribute", "underscore-first",
+                "mangled-twin", "numbered-twin", "case-twin", "one-char", "long", "prefix-chain")
+
+
+def draw_names(rng, cls, n, avoid=()):
+    """n distinct legal short names of class `cls` (a member of NAME_CLASSES, or "mixed" = every name of a class of its own),
+    none of them in `avoid`.  Relational classes ("…-twin", "prefix-chain") return names that are related to *each other*:
+      mangled-twin   X and _X where X starts with a digit / is a keyword (the attribute key NamedItemList gives X is the name _X)
+      numbered-twin  X, X_2, X_, X_3, X_2_2 … (the suffixes NamedItemList uses to disambiguate attribute keys)
+      case-twin      names that differ only in case;  prefix-chain: every name is a proper prefix of the next"""
+    avoid = set(avoid)
+    out = []
+
+    def take(cands):
+        for c in cands:
+            if len(out) >= n:
+                break
+            if c not in avoid and c not in out and 1 <= len(c) <= 128:
+                out.append(c)
+
+    def stems():
+        s = list(_STEMS)
+        rng.shuffle(s)
+        return s
+
+    guard = 0
+    while len(out) < n and guard < 50:
+        guard += 1
+        c = rng.choice(NAME_CLASSES) if cls == "mixed" else cls
+        want = 1 if cls == "mixed" else n
+        before = len(out)
+        if c == "plain":
+            cands = [f"{s}{guard if guard > 1 else ''}" for s in stems()]
+        elif c == "digit-first":
+            cands = [f"{rng.choice(['31', '22', '3E', '0x27', '1', '7F', '2e', '0'])}_{s}" for s in stems()] + ["0x10", "1a", "2E", "3e80"]
+            rng.shuffle(cands)
+        elif c == "all-digits":
+            cands = ["0", "1", "31", "007", "10", "22", "62", "127", "2147483648", "00"] + [str(rng.randrange(10 ** 6)) for _ in range(n + 4)]
+            rng.shuffle(cands)
+        elif c == "keyword":
+            cands = rng.sample(_HARD_KW, len(_HARD_KW))
+        elif c == "soft-keyword-or-builtin":
+            cands = rng.sample(_SOFT_KW, len(_SOFT_KW))
+        elif c == "container-attribute":
+            cands = rng.sample(_CONTAINER_ATTRS, len(_CONTAINER_ATTRS))
+        elif c == "underscore-first":
+            cands = ["_", "__", "_1", "_0x", "___"] + [f"{'_' * rng.randint(1, 2)}{s}{rng.choice(['', '_', '__'])}" for s in stems()]
+            rng.shuffle(cands)
+        elif c == "mangled-twin":
+            cands = []
+            for s in stems():
+                x = rng.choice([f"{rng.randint(0, 99)}_{s}", rng.choice(_HARD_KW), f"{rng.randint(0, 9)}{s}"])
+                pair = [x, "_" + x]
+                rng.shuffle(pair)
+                cands += pair
+        elif c == "numbered-twin":
+            cands = []
+            for s in stems():
+                fam = [s, s + "_2", s + "_", s + "_3", s + "_2_2", s + "2", s + "__2"]
+                k = max(2, min(len(fam), n - len(cands)))
+                grp = [fam[0]] + rng.sample(fam[1:], k - 1)
+                rng.shuffle(grp)
+                cands += grp
+        elif c == "case-twin":
+            cands = []
+            for s in stems():
+                grp = list(dict.fromkeys([s.lower(), s.upper(), s.capitalize(), s.swapcase()]))
+                rng.shuffle(grp)
+                cands += grp
+        elif c == "one-char":
+            cands = list("abzAZQ_0179xX")
+            rng.shuffle(cands)
+        elif c == "long":
+            fill = rng.choice("aZ_9")
+            head = rng.choice(["L", "_", "4"])
+            cands = [head + fill * (127 - len(t)) + t for t in (f"{k:04d}" for k in rng.sample(range(10000), n + 4))]
+            cands += [t + fill * (128 - len(t)) for t in (f"n{k:04d}" for k in rng.sample(range(10000), 2))]   # differ at the front
+            rng.shuffle(cands)
+        else:  # prefix-chain
+            s = rng.choice(_STEMS)
+            cands = [s]
+            for _ in range(n + 4):
+                cands.append(cands[-1] + rng.choice(["_", "1", "a", "_2", "X", "0"]))
+            if rng.random() < .5:
+                cands.reverse()
+        if cls == "mixed":
+            take([x for x in cands if x not in avoid and x not in out][:want])
+        else:
+            take(cands)
+        if len(out) == before and cls != "mixed":
+            # the class is exhausted (more names wanted than it has): pad with plain names
+            take([f"{s}_{k}" for k in range(n) for s in _STEMS])
+    if len(out) < n:
+        take([f"N{k}_{s}" for k in range(n) for s in _STEMS])
+    return out
+
+
+def fresh_name(rng, cls, avoid, near=()):
+    """one more legal short name of class `cls` that is not in `avoid`; for the relational classes it is related to one of
+    the names in `near` (its mangled / numbered / case twin, a prefix or an extension of it) whenever that is possible"""
+    avoid = set(avoid)
+    near = sorted(near)
+    if near and cls in ("mangled-twin", "numbered-twin", "case-twin", "prefix-chain"):
+        x = rng.choice(near)
+        if cls == "mangled-twin":
+            cands = [x[1:] if x.startswith("_") and len(x) > 1 else "_" + x, "_" + x]
+        elif cls == "numbered-twin":
+            cands = [x + "_2", x + "_", x + "2", x + "_3", x[:-2] if x.endswith("_2") else x + "_2_2"]
+            rng.shuffle(cands)
+        elif cls == "case-twin":
+            cands = [x.swapcase(), x.upper(), x.lower(), x.capitalize()]
+        else:
+            cands = [x + rng.choice("_1aX0"), x[:-1]]
+            rng.shuffle(cands)
+        for c in cands:
+            if c and c not in avoid and len(c) <= 128 and re.fullmatch(r"[a-zA-Z0-9_]+", c):
+                return c
+    return draw_names(rng, cls, 1, avoid)[0]
+
+
+def name_class_of(name):
+    """coarse class of a single name (for histograms)"""
+    import keyword
+    if name.isdigit():
+        return "all-digits"
+    if name[0].isdigit():
+        return "digit-first"
+    if keyword.iskeyword(name):
+        return "keyword"
+    if name in _CONTAINER_ATTRS:
+        return "container-attribute"
+    if name in _SOFT_KW:
+        return "soft-keyword-or-builtin"
+    if name[0] == "_":
+        return "underscore-first"
+    if len(name) == 1:
+        return "one-char"
+    if len(name) >= 100:
+        return "long"
+    return "plain"
+
+
+NAME_KINDS = ("layers", "services", "params", "dops", "units", "comparams")
+
+
+def rename_spec(spec, rng, naming):
+    """a copy of `spec` in which the short names of the kinds in `naming` ({kind: name class}) are replaced by names of that
+    class, consistently (all references follow: PARENT-REFs, NOT-INHERITED lists, DOP-REFs, UNIT-REFs, COMPARAM-REFs).
+    XML IDs of services / requests / responses keep the generator's plain ids.  Name spaces: layers; services (one map for the
+    document, so a service that a later layer re-defines keeps sharing its name); DOPs + STRUCTUREs; units; comparams;
+    parameters per parameter list.  The chosen classes are recorded under spec["naming"]."""
+    s = copy.deepcopy(spec)
+    s["naming"] = dict(naming)
+
+    def mapping(kind, olds, avoid=()):
+        olds = list(dict.fromkeys(olds))
+        cls = naming.get(kind)
+        if not cls or not olds:
+            return {o: o for o in olds}
+        return dict(zip(olds, draw_names(rng, cls, len(olds), avoid)))
+
+    lm = mapping("layers", [l["name"] for l in s["layers"]])
+    sm = mapping("services", [x["name"] for l in s["layers"] for x in l["services"]])
+    # unused STRUCTUREs of a layer are called st0, st1 (spec_xml) and live in the same name space as DOPs
+    dm = mapping("dops", [d["name"] for d in s.get("dops", [])] + [d["name"] for d in s.get("sdops", [])], avoid=("st0", "st1"))
+    um = mapping("units", [u["name"] for u in s.get("units", [])])
+    cm = mapping("comparams", list(s.get("comparams", [])))
+
+    def plist(ps):
+        pm = mapping("params", [p["name"] for p in ps])
+        for p in ps:
+            p["name"] = pm[p["name"]]
+            if p.get("dop") is not None:
+                p["dop"] = dm.get(p["dop"], p["dop"])
+
+    for d in s.get("dops", []):
+        d["name"] = dm[d["name"]]
+        if d.get("unit"):
+            d["unit"] = um[d["unit"]]
+    for d in s.get("sdops", []):
+        d["name"] = dm[d["name"]]
+        plist(d["members"])
+    for u in s.get("units", []):
+        u["name"] = um[u["name"]]
+    s["comparams"] = [cm[c] for c in s.get("comparams", [])]
+    for l in s["layers"]:
+        l["name"] = lm[l["name"]]
+        if l.get("parent"):
+            l["parent"] = lm[l["parent"]]
+        for ref in l.get("parents") or []:
+            ref["name"] = lm[ref["name"]]
+            ref["ni_svcs"] = [sm.get(x, x) for x in ref.get("ni_svcs") or []]
+            ref["ni_dops"] = [dm.get(x, x) for x in ref.get("ni_dops") or []]
+        for key in ("own_dops", "dup_dops", "own_sdops"):
+            if key in l:
+                l[key] = [dm[x] for x in l[key]]
+        l["cprefs"] = [[cm[c], pr] for c, pr in l.get("cprefs", [])]
+        for x in l["services"]:
+            x["name"] = sm[x["name"]]
+            plist(x["req"])
+            for sec in ("pos", "neg"):
+                for ps in x.get(sec, []):
+                    plist(ps)
+    return s
+
+
+def all_names(spec, kind):
+    """the short names of one name space that a spec uses"""
+    if kind == "services":
+        return {x["name"] for l in spec["layers"] for x in l["services"]}
+    if kind == "layers":
+        return {l["name"] for l in spec["layers"]}
+    if kind == "dops":
+        return {d["name"] for d in spec.get("dops", [])} | {d["name"] for d in spec.get("sdops", [])} | {"st0", "st1"}
+    raise ValueError(kind)
+
+
 # --------------------------------------------------------------------------- constant request prefix, from the spec alone
 def parent_refs(layer):
     """the PARENT-REFs of a layer spec: [{"name", "ni_svcs", "ni_dops"}] ("parent": name is the single-parent short form)"""
